@@ -29,10 +29,10 @@ abbrev Str := List Char
 section pose
 variable {K : Type} [Add K] [Sub K] [Mul K] [Div K] [Neg K] [OfNat K 0] [OfNat K 1] [OfNat K 2] [DecidableEq K]
 
-/-- `prior_t = pose_tr.inverse().t_raw`, written as "center" (export_openmvg.py:340-341 and 387-388) -/
+/-- `prior_t = pose_tr.inverse().t_raw`, written as "center" (export_openmvg.py:352-353 and 399-400) -/
 def exportCentre (p : Pose K) : V3 K := (inverse p).t
 
-/-- `quaternion.as_rotation_matrix(prior_q)`, written as "rotation" (export_openmvg.py:342, 389).  The library normalises
+/-- `quaternion.as_rotation_matrix(prior_q)`, written as "rotation" (export_openmvg.py:354, 401).  The library normalises
   by the squared norm like `_as_rotation_matrix_njit` does; both are `C05.rot` (checked by the correspondence). -/
 def exportRotation (p : Pose K) : M3 K := rot p.r
 
@@ -91,32 +91,32 @@ variable {K : Type} [Add K] [Div K] [OfNat K 0] [OfNat K 2] [DecidableEq K]
 def layout (v2 : Bool) (c : Common K) (disto : List K) : IntrData K :=
   if v2 then IntrData.flat c disto else IntrData.nested c disto
 
-/-- `_export_openmvg_intrinsics`, the per-camera branch (export_openmvg.py:171-230).  `none` = IndexError (too few
+/-- `_export_openmvg_intrinsics`, the per-camera branch (export_openmvg.py:183-242).  `none` = IndexError (too few
   parameters).  Extra parameters are ignored exactly where the Python indexing ignores them.  UNKNOWN_CAMERA and the
   unsupported models are outside this model. -/
 def exportCam (v2 : Bool) (c : Cam K) : Option (Intrinsic K) :=
   match c.type, c.params with
-  | CamType.SIMPLE_PINHOLE, f :: cx :: cy :: _ =>                                     -- :173-176
+  | CamType.SIMPLE_PINHOLE, f :: cx :: cy :: _ =>                                     -- :185-188
     some ⟨MvgModel.pinhole, IntrData.flat ⟨c.w, c.h, f, cx, cy⟩ []⟩
-  | CamType.PINHOLE, fx :: fy :: cx :: cy :: _ =>                                     -- :177-183
+  | CamType.PINHOLE, fx :: fy :: cx :: cy :: _ =>                                     -- :189-195
     some ⟨MvgModel.pinhole, IntrData.flat ⟨c.w, c.h, (fx + fy) / 2, cx, cy⟩ []⟩
-  | CamType.SIMPLE_RADIAL, f :: cx :: cy :: k :: _ =>                                 -- :184-187
+  | CamType.SIMPLE_RADIAL, f :: cx :: cy :: k :: _ =>                                 -- :196-199
     some ⟨MvgModel.pinhole_radial_k1, IntrData.flat ⟨c.w, c.h, f, cx, cy⟩ [k]⟩
-  | CamType.RADIAL, f :: cx :: cy :: k1 :: k2 :: _ =>                                 -- :188-196
+  | CamType.RADIAL, f :: cx :: cy :: k1 :: k2 :: _ =>                                 -- :200-208
     some ⟨MvgModel.pinhole_radial_k3, IntrData.flat ⟨c.w, c.h, f, cx, cy⟩ [k1, k2, 0]⟩
-  | CamType.OPENCV, fx :: fy :: cx :: cy :: k1 :: k2 :: p1 :: p2 :: rest =>           -- :197-207
+  | CamType.OPENCV, fx :: fy :: cx :: cy :: k1 :: k2 :: p1 :: p2 :: rest =>           -- :209-219
     let k3 := match rest with
       | k3 :: _ => k3
       | [] => 0
     some ⟨MvgModel.pinhole_brown_t2, layout v2 ⟨c.w, c.h, (fx + fy) / 2, cx, cy⟩ [k1, k2, k3, p1, p2]⟩
-  | CamType.FULL_OPENCV, fx :: fy :: cx :: cy :: k1 :: k2 :: p1 :: p2 :: rest =>      -- :197-207
+  | CamType.FULL_OPENCV, fx :: fy :: cx :: cy :: k1 :: k2 :: p1 :: p2 :: rest =>      -- :209-219
     let k3 := match rest with
       | k3 :: _ => k3
       | [] => 0
     some ⟨MvgModel.pinhole_brown_t2, layout v2 ⟨c.w, c.h, (fx + fy) / 2, cx, cy⟩ [k1, k2, k3, p1, p2]⟩
-  | CamType.OPENCV_FISHEYE, fx :: fy :: cx :: cy :: _ =>                              -- :208-218
+  | CamType.OPENCV_FISHEYE, fx :: fy :: cx :: cy :: _ =>                              -- :220-230
     some ⟨MvgModel.fisheye, layout v2 ⟨c.w, c.h, (fx + fy) / 2, cx, cy⟩ [0, 0, 0, 0]⟩
-  | CamType.RADIAL_FISHEYE, f :: cx :: cy :: _ =>                                     -- :219-230
+  | CamType.RADIAL_FISHEYE, f :: cx :: cy :: _ =>                                     -- :231-242
     some ⟨MvgModel.fisheye, layout v2 ⟨c.w, c.h, f, cx, cy⟩ [0, 0, 0, 0]⟩
   | CamType.SIMPLE_RADIAL_FISHEYE, f :: cx :: cy :: _ =>
     some ⟨MvgModel.fisheye, layout v2 ⟨c.w, c.h, f, cx, cy⟩ [0, 0, 0, 0]⟩
@@ -169,10 +169,10 @@ structure Rec where
   name : Str
 deriving DecidableEq, Repr
 
-/-- the id loop (export_openmvg.py:528-533): camera ids -/
+/-- the id loop (export_openmvg.py:540-545): camera ids -/
 def camIds (recs : List Rec) : List (Str × Nat) := recs.foldl (fun t r => computeId r.cam t) []
 
-/-- the id loop (export_openmvg.py:528-533): view ids, by image name -/
+/-- the id loop (export_openmvg.py:540-545): view ids, by image name -/
 def viewIds (recs : List Rec) : List (Str × Nat) := recs.foldl (fun t r => computeId r.name t) []
 
 /-! ## image names -/
@@ -199,25 +199,25 @@ def commonPrefix : List Str → List Str → List Str
   | a :: as, b :: bs => if a = b then a :: commonPrefix as bs else []
   | _, _ => []
 
-/-- `sub_root_path` (export_openmvg.py:534-538): `path.commonpath` of the image directories (or the only one), as
+/-- `sub_root_path` (`_get_sub_root_path`, export_openmvg.py:139-148, called at :546): `path.commonpath` of the image directories (or the only one), as
   components; `[]` is the empty string -/
 def subRoot (recs : List Rec) : List Str :=
   match recs.map (fun r => dirComps r.name) with
   | [] => []
   | d :: ds => ds.foldl commonPrefix d
 
-/-- `path.relpath(kapture_image_name, sub_root_path) if sub_root_path else kapture_image_name` (export_openmvg.py:311-315)
+/-- `path.relpath(kapture_image_name, sub_root_path) if sub_root_path else kapture_image_name` (export_openmvg.py:323-327)
   for a name below `sub`, as components -/
 def relOf (sub : List Str) (name : Str) : List Str := (splitSlash name).drop sub.length
 
-/-- `kapture_image_name.replace('/', '_')` (export_openmvg.py:141) -/
+/-- `kapture_image_name.replace('/', '_')` (export_openmvg.py:153) -/
 def flattenStr (s : Str) : Str := s.map (fun c => if c = '/' then '_' else c)
 
-/-- `_get_openmvg_image_path` (export_openmvg.py:139-141), as components of the result -/
+/-- `_get_openmvg_image_path` (export_openmvg.py:151-153), as components of the result -/
 def mvgPath (flatten : Bool) (comps : List Str) : List Str :=
   if flatten then [flattenStr (joinSlash comps)] else comps
 
-/-- a view, the fields the loop depends on (export_openmvg.py:316-325) -/
+/-- a view, the fields the loop depends on (export_openmvg.py:328-337) -/
 structure View where
   key : Nat
   idView : Nat
@@ -227,7 +227,7 @@ structure View where
   filename : Str
 deriving DecidableEq, Repr
 
-/-- `_export_openmvg_views`, one image (export_openmvg.py:308-325).  `none` = KeyError. -/
+/-- `_export_openmvg_views`, one image (export_openmvg.py:320-337).  `none` = KeyError. -/
 def exportView (flatten : Bool) (sub : List Str) (cams views : List (Str × Nat)) (r : Rec) : Option View :=
   match Dict.get? r.cam cams, Dict.get? r.name views with
   | some c, some v =>
@@ -246,7 +246,7 @@ def exportViews (flatten : Bool) (sub : List Str) (cams views : List (Str × Nat
     | _, _ => none
 
 /-- `openmvg_images_dir = path.basename(data_root_path)` where `root_path = abspath(join(image_root, sub_root_path))`
-  (export_openmvg.py:539-540, 597; import_openmvg.py:114): the last component of the common directory, or the base name
+  (export_openmvg.py:547-548, 605; import_openmvg.py:114): the last component of the common directory, or the base name
   of the image root when there is no common directory -/
 def imagesDir (rootBase : Str) (sub : List Str) : Str := sub.getLastD rootBase
 
@@ -263,7 +263,7 @@ def importViews (imagesDir : Str) (vs : List View) : List (Nat × Str) :=
 def poseTable (vs : List View) : List (Nat × Nat × Nat) :=
   vs.foldl (fun t v => Dict.set v.idPose (v.idView, v.idIntrinsic) t) []
 
-/-- base name (before `splitext`) of the region files written for an image (export_openmvg.py, `_export_openmvg_regions`:
+/-- base name (before `splitext`) of the region files written for an image (export_openmvg.py:703-707 and 724-728, `_export_openmvg_regions`:
   `_get_openmvg_image_path(relpath(kapture_image_name, sub_root_path) if sub_root_path else kapture_image_name, flatten)`,
   then `path.basename`) — the same relative name the views carry -/
 def regionBaseExport (flatten : Bool) (sub : List Str) (name : Str) : Str :=
@@ -283,7 +283,7 @@ def trajectoryKey (tbl : List (Nat × Nat × Nat)) (poseId : Nat) : Option (Nat 
 /-- observations of one point for the exported keypoints type, in stored order: (image name, feature index) -/
 abbrev PointObs := List (Str × Nat)
 
-/-- the observations of one point through the view ids (export_openmvg.py, `_export_openmvg_structure`, inner loop);
+/-- the observations of one point through the view ids (export_openmvg.py:449-469, `_export_openmvg_structure`, inner loop);
   `none` = KeyError (an observed image is not in records_camera) -/
 def exportObs (views : List (Str × Nat)) : PointObs → Option (List (Nat × Nat))
   | [] => some []
@@ -292,7 +292,7 @@ def exportObs (views : List (Str × Nat)) : PointObs → Option (List (Nat × Na
     | some v, some rest => some ((v, o.2) :: rest)
     | _, _ => none
 
-/-- `_export_openmvg_structure`: `for point_idx, coords in enumerate(xyz_coordinates)`, key = point index -/
+/-- `_export_openmvg_structure` (export_openmvg.py:439-471): `for point_idx, coords in enumerate(xyz_coordinates)`, key = point index -/
 def exportPoints {α : Type} (views : List (Str × Nat)) : Nat → List (α × PointObs) → Option (List (Nat × α × List (Nat × Nat)))
   | _, [] => some []
   | i, (x, obs) :: r =>
@@ -308,7 +308,7 @@ def maxKey {β : Type} : List (Nat × β) → Nat
   | [] => 0
   | (k, _) :: r => Nat.max k (maxKey r)
 
-/-- the observations of one point (import_openmvg.py, `_import_openmvg_structure`, inner loop): the image name through
+/-- the observations of one point (import_openmvg.py:385-392, `_import_openmvg_structure`, inner loop): the image name through
   `view_ids_to_kapture_filename.get`; "ValueError" when the view id is unknown (or its name empty) -/
 def importObs (names : List (Nat × Str)) (idx : Nat) : List (Nat × Nat) → Except String (List (Nat × Str × Nat))
   | [] => Except.ok []
@@ -332,12 +332,12 @@ def importAllObs {α : Type} (names : List (Nat × Str)) : List (Nat × α × Li
       | Except.error e => Except.error e
 
 /-- `points_3d[point_idx] = X` for every entry, then `[points_3d.get(i) or EMPTY for i in range(0, max_point_idx + 1)]`
-  (import_openmvg.py, `_import_openmvg_structure`) -/
+  (import_openmvg.py:379, 394-400) -/
 def importPoints {α : Type} (empty : α) (st : List (Nat × α × List (Nat × Nat))) : List α :=
   let dict : List (Nat × α) := st.foldl (fun t p => Dict.set p.1 p.2.1 t) []
   (List.range (maxKey st + 1)).map (fun i => (Dict.get? i dict).getD empty)
 
-/-- `_import_openmvg_structure`.  `names` is `view_ids_to_filename`.  Returns the point list and the observations
+/-- `_import_openmvg_structure` (import_openmvg.py:363-401).  `names` is `view_ids_to_filename`.  Returns the point list and the observations
   (point, image name, feature) in insertion order.  An empty structure sets nothing (`if structure_data_json:`): `(none, [])`. -/
 def importStructure {α : Type} (names : List (Nat × Str)) (empty : α) (st : List (Nat × α × List (Nat × Nat))) :
     Except String (Option (List α) × List (Nat × Str × Nat)) :=
@@ -348,7 +348,7 @@ def importStructure {α : Type} (names : List (Nat × Str)) (empty : α) (st : L
 
 /-! ## matches -/
 
-/-- `_export_openmvg_matches`: one block per pair: the two view ids, then the index pairs.  `none` = KeyError. -/
+/-- `_export_openmvg_matches` (export_openmvg.py:762-771): one block per pair: the two view ids, then the index pairs.  `none` = KeyError. -/
 def exportMatches (views : List (Str × Nat)) : List ((Str × Str) × List (Nat × Nat)) → Option (List ((Nat × Nat) × List (Nat × Nat)))
   | [] => some []
   | m :: r =>
@@ -362,7 +362,7 @@ def strLt : Str → Str → Bool
   | [], _ :: _ => true
   | a :: as, b :: bs => if a.toNat < b.toNat then true else if a = b then strLt as bs else false
 
-/-- `_import_openmvg_matches` (import_openmvg.py:496-547), one block: names through `records_camera[idx]`, columns swapped
+/-- `_import_openmvg_matches` (import_openmvg.py:498-549), one block: names through `records_camera[idx]`, columns swapped
   when `image_2 < image_1`.  "ValueError" when an index is not a timestamp of records_camera. -/
 def importMatchBlock (names : List (Nat × Str)) (b : (Nat × Nat) × List (Nat × Nat)) :
     Except String ((Str × Str) × List (Nat × Nat)) :=
@@ -412,7 +412,7 @@ section whole
 variable {K : Type} [Add K] [Sub K] [Mul K] [Div K] [Neg K] [OfNat K 0] [OfNat K 1] [OfNat K 2] [DecidableEq K]
 variable {α : Type}
 
-/-- `_export_openmvg_intrinsics` loop (export_openmvg.py:164-254): cameras that no image uses are skipped -/
+/-- `_export_openmvg_intrinsics` loop (export_openmvg.py:176-266): cameras that no image uses are skipped -/
 def exportIntrinsics (v2 : Bool) (camIds : List (Str × Nat)) (cams : List (Str × Cam K)) :
     Except String (List (Nat × Intrinsic K)) :=
   (cams.filterMap (fun (c : Str × Cam K) => (Dict.get? c.1 camIds).map (fun i => (i, c.2)))).mapM
@@ -421,7 +421,7 @@ def exportIntrinsics (v2 : Bool) (camIds : List (Str × Nat)) (cams : List (Str 
       | some i => Except.ok (ic.1, i)
       | none => Except.error "IndexError")
 
-/-- `_export_openmvg_extrinsics` (export_openmvg.py:373-390), one image: `none` = no entry (no pose at that timestamp);
+/-- `_export_openmvg_extrinsics` (export_openmvg.py:385-402), one image: `none` = no entry (no pose at that timestamp);
   a timestamp that has poses but none for this camera trips the `assert` -/
 def exportExtrinsic (views : List (Str × Nat)) (poses : List ((Int × Str) × Pose K)) (r : Rec) :
     Except String (Option (Nat × V3 K × M3 K)) :=
@@ -440,7 +440,7 @@ def exportExtrinsics (views : List (Str × Nat)) (poses : List ((Int × Str) × 
   | Except.ok l => Except.ok (l.filterMap id)
   | Except.error e => Except.error e
 
-/-- `_export_openmvg_sfm_data` + `_export_openmvg_matches` (export_openmvg.py:524-603, 727-757) -/
+/-- `_export_openmvg_sfm_data` + `_export_openmvg_matches` (export_openmvg.py:536-611, 741-771) -/
 def exportSfm (flatten v2 : Bool) (rootBase : Str) (d : Dataset K α) : Except String (Sfm K α) :=
   let cids := camIds d.recs
   let vids := viewIds d.recs
